@@ -221,3 +221,189 @@ func registerTableByState(c *core.Ctx, T *types.Named, reg *ssa.Function, nameFn
 	}
 	return bad, runs
 }
+
+// definitionRegistryByState decides the definition registry's rows for any representation, observing it only through
+// its own methods: made by its constructor and filled through RegisterMeta, it must list what was stored - each name
+// once, the latest definition stored under it - filter by the options, find by name and answer nil on a miss; and
+// GetMetaOrRegister must keep what is there and otherwise store a new definition that answers to the key.
+func definitionRegistryByState(c *core.Ctx, T *types.Named) (bad string, runs int) {
+	ctor := constructorYielding(c, T)
+	meta := c.Named("component_definition", "Meta")
+	nameM := c.DeclaredMethod(meta, "Name")
+	setName := c.DeclaredMethod(meta, "SetName")
+	ro := c.Roles()
+	reg, getMetas, byName, gor := c.DeclaredMethod(T, "RegisterMeta"), c.DeclaredMethod(T, "GetMetas"), c.DeclaredMethod(T, "GetMetaByName"), c.DeclaredMethod(T, "GetMetaOrRegister")
+	if ctor == nil || nameM == nil || reg == nil || getMetas == nil || byName == nil || gor == nil || ro.NewMeta == nil {
+		return "no single constructor of " + T.Obj().Name() + ", or RegisterMeta / GetMetas / GetMetaByName / GetMetaOrRegister / Meta.Name / NewMeta not found", 0
+	}
+	// (D2's name differs from D1's only in the case of a letter: names are keys as they are written)
+	names := map[string]string{"D0": "n0", "D1": "n1", "D2": "N1", "D1b": "n1"}
+	for mask := 0; mask < 8; mask++ {
+		for nopts := 0; nopts <= 2; nopts++ {
+			if nopts == 0 && mask != 0 {
+				continue
+			}
+			var regObj *absint.Tok
+			var t *tbl
+			var newMetas int
+			toks := map[string]*absint.Tok{}
+			build := func() (absint.Oracle, []absint.Value, []absint.Value) {
+				t = newTbl(c)
+				newMetas = 0
+				for id := range names {
+					toks[id] = absint.NewTok(id, "meta")
+				}
+				t.typeTest = func(v absint.Value, ty types.Type) (bool, bool) {
+					if m, ok := v.(*absint.Tok); ok && m.Class == "meta" {
+						if p, isP := ty.(*types.Pointer); isP && core.NamedOf(p.Elem()) == meta {
+							return true, true
+						}
+					}
+					return false, false
+				}
+				t.callee[nameM] = func(ip *absint.Interp, a []absint.Value) absint.Value {
+					if m, ok := a[0].(*absint.Tok); ok {
+						if n, known := names[m.ID]; known {
+							return absint.Str(n)
+						}
+						if n, isStr := m.Attr["name"].(absint.Str); isStr {
+							return n
+						}
+					}
+					panic(&absint.Undecided{Msg: "Name() of an unknown definition"})
+				}
+				if setName != nil {
+					t.callee[setName] = func(ip *absint.Interp, a []absint.Value) absint.Value {
+						if m, ok := a[0].(*absint.Tok); ok {
+							m.Attr["name"] = a[1]
+						}
+						return nil
+					}
+				}
+				t.callee[ro.NewMeta] = func(ip *absint.Interp, a []absint.Value) absint.Value {
+					newMetas++
+					m := absint.NewTok(fmt.Sprintf("new%d", newMetas), "meta")
+					m.Attr["name"] = absint.Str("default-name")
+					return m
+				}
+				t.dynamic = func(ip *absint.Interp, fn absint.Value, a []absint.Value) (absint.Value, bool) {
+					if o, ok := fn.(*absint.Tok); ok && o.Class == "option" {
+						m, _ := a[0].(*absint.Tok)
+						idx := -1
+						if m != nil && len(m.ID) >= 2 && m.ID[0] == 'D' {
+							idx = int(m.ID[1] - '0')
+						}
+						if idx < 0 || idx > 2 {
+							return absint.Bool(true), true
+						}
+						if o.ID == "opt0" {
+							return absint.Bool(mask>>idx&1 == 1), true
+						}
+						return absint.Bool(idx != 2), true
+					}
+					return nil, false
+				}
+				t.setup = func(ip *absint.Interp) {
+					made, _ := ip.CallFunction(ctor, nil, nil).(*absint.Tok)
+					if made == nil {
+						panic(&absint.Undecided{Msg: "the constructor did not yield an object"})
+					}
+					regObj = made
+					// D1 is stored, and stored again by a definition of the same name
+					for _, id := range []string{"D0", "D1", "D2", "D1b"} {
+						ip.CallFunction(reg, []absint.Value{made, toks[id]}, nil)
+					}
+				}
+				opts := &absint.List{IsNil: nopts == 0}
+				for i := 0; i < nopts; i++ {
+					opts.Elems = append(opts.Elems, absint.NewTok(fmt.Sprintf("opt%d", i), "option"))
+				}
+				return t, []absint.Value{&absint.Lazy{Eval: func(ip *absint.Interp) absint.Value { return regObj }}, opts}, nil
+			}
+			check := func(ip *absint.Interp, out absint.Outcome) {
+				var want []string
+				for i, id := range []string{"D0", "D1b", "D2"} {
+					acc := true
+					if nopts >= 1 && mask>>i&1 == 0 {
+						acc = false
+					}
+					if nopts >= 2 && i == 2 {
+						acc = false
+					}
+					if acc {
+						want = append(want, id)
+					}
+				}
+				var got []string
+				if len(out.Ret) == 1 {
+					if l, ok := out.Ret[0].(*absint.List); ok {
+						for _, e := range l.Elems {
+							got = append(got, absint.Show(e))
+						}
+					}
+				}
+				sort.Strings(got)
+				sort.Strings(want)
+				if out.Panic != nil || strings.Join(got, ",") != strings.Join(want, ",") {
+					bad = fmt.Sprintf("after storing D0, D1, D2 and D1b under D1's name: GetMetas with %d option(s), accept-mask %03b => %v, want %v", nopts, mask, got, want)
+					return
+				}
+				// by name, on the same registry
+				for _, q := range []struct{ key, want string }{{"n1", "D1b"}, {"N1", "D2"}, {"n0", "D0"}, {"N0", "<nil>"}, {"n0 ", "<nil>"}, {" n0", "<nil>"}, {"missing", "<nil>"}} {
+					o2 := ip.Run(byName, []absint.Value{regObj, absint.Str(q.key)}, nil)
+					g := "?"
+					if o2.Undecided == nil && o2.Panic == nil && len(o2.Ret) == 1 {
+						g = absint.Show(o2.Ret[0])
+						if _, isNil := o2.Ret[0].(absint.Nil); isNil {
+							g = "<nil>"
+						}
+					}
+					if g != q.want {
+						bad = fmt.Sprintf("GetMetaByName(%q) => %s, want %s", q.key, g, q.want)
+						return
+					}
+				}
+				// get-or-register: keeps what is there; otherwise one new definition, answering to the key, found again
+				o3 := ip.Run(gor, []absint.Value{regObj, absint.Str("N1"), absint.NewTok("component", "component")}, nil)
+				if o3.Undecided != nil || o3.Panic != nil || len(o3.Ret) != 1 || absint.Show(o3.Ret[0]) != "D2" || newMetas != 0 {
+					bad = fmt.Sprintf("GetMetaOrRegister of a stored name => %s (new definitions built: %d), want the stored one and none built", showOutcome(o3), newMetas)
+					return
+				}
+				o4 := ip.Run(gor, []absint.Value{regObj, absint.Str("fresh"), absint.NewTok("component", "component")}, nil)
+				nm, _ := first(o4.Ret).(*absint.Tok)
+				if o4.Undecided != nil || o4.Panic != nil || nm == nil || newMetas != 1 || nm.Attr["name"] != absint.Value(absint.Str("fresh")) {
+					bad = fmt.Sprintf("GetMetaOrRegister of a new name => %s (new definitions built: %d): want one new definition renamed to the key", showOutcome(o4), newMetas)
+					return
+				}
+				o5 := ip.Run(byName, []absint.Value{regObj, absint.Str("fresh")}, nil)
+				if o5.Undecided != nil || o5.Panic != nil || len(o5.Ret) != 1 || o5.Ret[0] != absint.Value(nm) {
+					bad = fmt.Sprintf("the definition GetMetaOrRegister made is not found under its key: %s", showOutcome(o5))
+				}
+			}
+			k, u := runTable(c, getMetas, build, check)
+			runs += k
+			if u != "" {
+				return "left the model: " + u, runs
+			}
+			if bad != "" {
+				return bad, runs
+			}
+		}
+	}
+	return bad, runs
+}
+
+func definitionRegistryByStateMemo(c *core.Ctx, T *types.Named) (string, int) {
+	key := "defreg-by-state:" + T.String()
+	type res struct {
+		bad  string
+		runs int
+	}
+	if v, ok := c.Memo.Load(key); ok {
+		x := v.(res)
+		return x.bad, x.runs
+	}
+	b, n := definitionRegistryByState(c, T)
+	c.Memo.Store(key, res{b, n})
+	return b, n
+}
